@@ -41,11 +41,12 @@ func (q *clientSegmentQueue) waitUntilSizeIsBelow(ctx context.Context, n int) bo
 	q.mutex.Lock()
 
 	for len(q.queue) > n {
+		didPull := q.didPull
 		q.mutex.Unlock()
 		verifHook("queue:waitBelow:unlocked")
 
 		select {
-		case <-q.didPull:
+		case <-didPull:
 		case <-ctx.Done():
 			return false
 		}
